@@ -130,7 +130,21 @@ func runC16(c *Ctx) {
 				c.R.Evaluations++
 				mp := strings.SplitN(model, " ", 2)
 				if obs != mp[0] {
-					c.mismatch(Mismatch{Kind: "model", Backend: "mem", Case: []string{line}, Impl: obs, Model: model, Spec: spec, Finger: "c16:rewrite"})
+					// where does the router take the path the implementation produced?  (the split is
+					// the model's route split, proved in C16 and checked in part (c))
+					kind, implSplit := "model", ""
+					if !panicked {
+						m2, _, _ := c.D.Ask(fmt.Sprintf("hostrewrite 0 ~ %s %s", hx("h"), hx(got)))
+						if f := strings.SplitN(m2, " ", 2); len(f) == 2 {
+							implSplit = f[1]
+							if implSplit != spec {
+								kind = "spec"
+							}
+						}
+					} else {
+						kind = "spec"
+					}
+					c.mismatch(Mismatch{Kind: kind, Backend: "mem", Case: []string{line}, Impl: obs + " " + implSplit, Model: model, Spec: spec, Finger: "c16:rewrite"})
 				} else if len(mp) == 2 && mp[1] != spec {
 					c.mismatch(Mismatch{Kind: "spec", Backend: "mem", Case: []string{line}, Impl: obs + " " + mp[1], Model: model, Spec: spec, Finger: "c16:rewrite-vs-path-style"})
 				}
@@ -188,7 +202,7 @@ func runC16(c *Ctx) {
 			if s != 200 || s2 != 200 {
 				c.mismatch(Mismatch{Kind: "spec", Backend: "mem", Case: []string{"PUT / host=" + host + " then HEAD /" + b}, Impl: fmt.Sprint(s, s2), Spec: "200 200", Finger: "c16:cross:createBucket"})
 			}
-			keys := []string{"/k1", "/dir/k2", "/k 3", "/ü"}
+			keys := []string{"/k1", "/dir/k2", "/k 3", "/ü", "/dir//k4", "/a/./b", "/a/../c"}
 			for i, k := range keys {
 				body := []byte(fmt.Sprintf("content-%s-%d", b, i))
 				// write host-style, read path-style
